@@ -46,6 +46,7 @@ def parseObs (src : List Int) (s : String) : Option LLM.Obs :=
   | ["n", x] => some (.count (parseIntS x))
   | ["rev"] => some .reversed | ["copy"] => some .copy | ["lst"] => some .listify
   | ["copyg", i] => some (.copyGet (parseIntS i))
+  | ["nop"] => some .nop
   | _ => none
 
 def showAns : LLM.Ans → String
